@@ -30,17 +30,17 @@ def AtomOK (o : Opts) (a : Bytes) : Prop := (o.emap a).length ≤ 255 ∧ o.dmap
 theorem take_drop_append_left (a r : Bytes) : (a ++ r).take a.length = a ∧ (a ++ r).drop a.length = r := by
   simp
 
-theorem readAtom_writeAtom (o : Opts) (hc : CachesConsistent o) (a r : Bytes) (ha : AtomOK o a) :
-    readAtom o (writeAtom o a ++ r) = .ok (a, r) := by
-  obtain ⟨hl, hm⟩ := ha
+/-- what the receiver reads for an atom: the two AtomMappings applied in turn -/
+theorem readAtom_writeAtom' (o : Opts) (hc : CachesConsistent o) (a r : Bytes) (hl : (o.emap a).length ≤ 255) :
+    readAtom o (writeAtom o a ++ r) = .ok (o.dmap (o.emap a), r) := by
   unfold writeAtom
   simp only
-  have plain : readAtom o ((be16 (o.emap a).length ++ o.emap a) ++ r) = .ok (a, r) := by
+  have plain : readAtom o ((be16 (o.emap a).length ++ o.emap a) ++ r) = .ok (o.dmap (o.emap a), r) := by
     unfold readAtom
     rw [List.append_assoc, rd16_be16 _ (by omega)]
     simp only [limAtomIdDec]
     have : ¬ (o.emap a).length > 255 := by omega
-    simp [this, hm]
+    simp [this]
   cases hid : o.atomId (o.emap a) with
   | none => simpa using plain
   | some id =>
@@ -51,8 +51,12 @@ theorem readAtom_writeAtom (o : Opts) (hc : CachesConsistent o) (a r : Bytes) (h
       unfold readAtom
       rw [rd16_be16 _ h1]
       simp only [limAtomIdDec, limAtomIdEnc] at hgt ⊢
-      simp [hgt, h2, hm]
+      simp [hgt, h2]
     · simpa using plain
+
+theorem readAtom_writeAtom (o : Opts) (hc : CachesConsistent o) (a r : Bytes) (ha : AtomOK o a) :
+    readAtom o (writeAtom o a ++ r) = .ok (a, r) := by
+  rw [readAtom_writeAtom' o hc a r ha.1, ha.2]
 
 def LeafGood (o : Opts) : Ty → Val → Prop
   | .num p, .num bs => numCanon p bs = bs
